@@ -165,6 +165,17 @@ def check_filter(ta, tb, tree):
         again = _plain_list(patching.apply_acl(patching.apply_acl(tree, rules), rules))
         if again != got:
             return False, dict(base, which=name, once=got, twice=again), "not-idempotent", True
+        # library entry point: filter_config on the rendered text gives the same lines
+        from annet.annlib import filter_acl
+        from annet.annlib.tabparser import HuaweiFormatter, parse_to_tree
+        fmt_ = HuaweiFormatter()
+        try:
+            ftext = filter_acl.filter_config(rules, fmt_, fmt_.join(tree))
+            fgot = _plain_list(parse_to_tree(ftext, fmt_.split))
+        except Exception as e:  # noqa
+            return False, dict(base, which=name, error=repr(e)), "exception:%s" % type(e).__name__, True
+        if fgot != got:
+            return False, dict(base, which=name, filter_config=fgot, apply_acl=got), "filter_config-differs-from-apply_acl", True
         # strict mode
         try:
             patching.apply_acl(tree, rules, fatal_acl=True)
@@ -241,12 +252,14 @@ def h_wide(case: int) -> bool:
 
 # ---------------------------------------------------------------- overlapping rules resolved by %prio
 OVERLAP = "b *\n    n * %prio=1\n        c\nb 1\n    ~ %global\n"
+# the negated form of a cant_delete rule is refused even when a catch-all sibling would let the text through
+OVERLAP2 = "b *\n    c %cant_delete=1 %prio=1\n    n * %prio=1\n        c\n    ~\n"
 PRIO_SLOTS = [S(["p X", "p Y"], [S(["m"]), S(["dd z"])]),
-              S(["b 1"], [S(["n 1"], [S(["c"]), S(["q"])])]), S(["b 2"], [S(["n 1"], [S(["c"]), S(["q"])])])]
+              S(["b 1"], [S(["n 1"], [S(["c"]), S(["q"])]), S(["undo c"])]), S(["b 2"], [S(["n 1"], [S(["c"]), S(["q"])])])]
 NPT = count(PRIO_SLOTS)
-NPRIO = 8 * 5 * NPT
+NPRIO = 8 * 6 * NPT
 PLO, PHI = rt.shard_range(NPRIO)
-PB = [0, 0b000001, 0b000010, 0b1000000, OVERLAP]
+PB = [0, 0b000001, 0b000010, 0b1000000, OVERLAP, OVERLAP2]
 
 
 def h_prio(case: int) -> bool:
@@ -256,7 +269,7 @@ def h_prio(case: int) -> bool:
     """
     c = pick(case, PHI, PLO)
     with NoTracing():
-        ai, bi, ti = digits(c, [8, 5, NPT])
+        ai, bi, ti = digits(c, [8, 6, NPT])
         ta = acl_text(0b1000000 | ai)
         tb = PB[bi] if isinstance(PB[bi], str) else acl_text(PB[bi])
         ok, detail, kind, nt = check_filter(ta, tb, unrank(PRIO_SLOTS, ti))
